@@ -246,7 +246,7 @@ func (c config) String() string {
 
 func newRec(c config, scen string, seed int64) *rec {
 	opt := sim.Options{Validators: c.validators, Nodes: c.nodes, PoS: c.pos, EpochLength: c.epoch, SkipLogs: true, RealRun: true}
-	if scen == "posweights" {
+	if scen == "posweights" || scen == "posforks" {
 		opt.StakingPeriod = 2 * c.epoch
 		opt.ExtraAccts = 1
 		opt.DelegatorAcct = c.validators + 1 // the extra account plays the delegator (stargate) contract
@@ -700,6 +700,112 @@ func scenPosWeights(r *rec, blocks int) {
 	}
 }
 
+// scenPosForks: proof of stake with weight tables that DIFFER PER FORK. After a common block the network splits:
+// nodes 0 and 1 build fork A, whose first block carries a stake increase for validator 0; node 2 builds fork B with an
+// increase for validator 2; the Byzantine validator 3 signs on both forks. After the staking-period renewal the forks
+// weigh the same signers differently: fork B's signers (2 and 3) pass 2/3 under B's table and are far below it under
+// A's. Fork B stops one epoch after the renewal - justified once, never able to finalize: with stake changes that
+// take effect within two epochs each fork could otherwise build its own supermajority, which the protocol excludes by
+// staking periods far longer than the finality lag. Then the partition heals: every node imports the other fork while
+// its best block is on its own - tallies of blocks off the best chain must use THEIR chain's weights.
+func scenPosForks(r *rec, blocks int) {
+	tag := r.net.God.Repo.ChainTag()
+	m, ok := builtin.Staker.ABI.MethodByName("increaseStake")
+	if !ok {
+		panic("no increaseStake")
+	}
+	unit, _ := new(big.Int).SetString("1000000000000000000000000", 10) // 1e6 VET in wei
+	mkTxs := func(incs map[int]int64, nonce uint64) tx.Transactions {
+		var txs tx.Transactions
+		for _, i := range []int{0, 1, 2, 3} {
+			if incs[i] == 0 {
+				continue
+			}
+			data, err := m.EncodeInput(r.net.Devs[i].Address)
+			must(err)
+			cl := tx.NewClause(&builtin.Staker.Address).WithData(data).WithValue(new(big.Int).Mul(unit, big.NewInt(incs[i])))
+			t := tx.NewBuilder(tx.TypeLegacy).ChainTag(tag).BlockRef(tx.NewBlockRef(0)).Expiration(100).Gas(1_000_000).
+				Nonce(uint64(r.st.Seed) + nonce + uint64(i)).Clause(cl).Build()
+			txs = append(txs, tx.MustSign(t, r.net.Devs[i].PrivateKey))
+		}
+		return txs
+	}
+	amounts := []int64{25, 50, 75, 100}
+	r.rng.Shuffle(len(amounts), func(i, j int) { amounts[i], amounts[j] = amounts[j], amounts[i] })
+	groupA, groupB := []int{0, 1}, []int{2}
+	to := func(group []int, blk *block.Block, except int) {
+		for _, i := range group {
+			if i != except {
+				r.deliver(i, blk)
+			}
+		}
+	}
+	first := r.propose(0)
+	if first == nil {
+		return
+	}
+	to([]int{1, 2}, first, -1)
+	// the forks' first blocks carry the stake changes
+	r.net.Nodes[0].Pool.Txs = mkTxs(map[int]int64{0: 75 + amounts[0]}, 0)
+	a := r.propose(0)
+	r.net.Nodes[0].Pool.Txs = nil
+	r.net.Nodes[2].Pool.Txs = mkTxs(map[int]int64{2: 75 + amounts[2]}, 50)
+	b := r.propose(2)
+	r.net.Nodes[2].Pool.Txs = nil
+	if a == nil || b == nil {
+		return
+	}
+	to(groupA, a, 0)
+	tipA, tipB := a, b
+	for k := 0; k < blocks; k++ {
+		// fork A: its two honest validators alternate, the Byzantine one joins now and then
+		if k%3 == 2 {
+			if x := r.mint(tipA.Header().ID(), 3, r.rng.Intn(2) == 0); x != nil {
+				r.st.ByzBlocks++
+				tipA = x
+				to(groupA, x, -1)
+			}
+		} else if x := r.propose(groupA[k%2]); x != nil {
+			tipA = x
+			to(groupA, x, groupA[k%2])
+		}
+		// fork B: one honest validator and the Byzantine one, until one epoch after the renewal
+		if int(tipB.Header().Number()) >= 3*int(r.net.Opt.EpochLength)-1 {
+			continue
+		}
+		if k%2 == 1 {
+			if x := r.mint(tipB.Header().ID(), 3, r.rng.Intn(2) == 0); x != nil {
+				r.st.ByzBlocks++
+				tipB = x
+				to(groupB, x, -1)
+			}
+		} else if x := r.propose(2); x != nil {
+			tipB = x
+		}
+	}
+	// the partition heals; node 2 is restarted while it catches up (cold caches: the tally of a block in the middle
+	// of an epoch is rebuilt from its own chain's checkpoint, not extended from the parent's cached one)
+	var chainA []*block.Block
+	for cur := tipA; cur.Header().Number() > first.Header().Number(); cur = r.blocks[cur.Header().ParentID()] {
+		chainA = append([]*block.Block{cur}, chainA...)
+	}
+	for _, x := range chainA {
+		if int(x.Header().Number())%int(r.net.Opt.EpochLength) == 1 && r.rng.Intn(2) == 0 {
+			r.restart(2)
+		}
+		r.deliver(2, x)
+	}
+	for _, i := range groupA {
+		r.deliverChain(i, tipB)
+	}
+	for k := 0; k < 2*int(r.net.Opt.EpochLength); k++ {
+		p := k % len(r.net.Nodes)
+		if x := r.propose(p); x != nil {
+			to([]int{0, 1, 2}, x, p)
+		}
+	}
+}
+
 // scenDoubleVote: a validator signs two blocks ON ONE CHAIN inside one epoch with different COM bits ("votes both COM
 // and non-COM in one round: counts as non-COM"), in both orders, in epochs where its vote decides whether the epoch
 // is committed. All blocks are scripted (minted), every node imports them.
@@ -952,7 +1058,7 @@ func scenVoteLater(r *rec, _ int) {
 	}
 }
 
-var scenarios = []string{"sync", "async", "async-restart", "byz", "equivocate", "permute", "latesibling", "boundary", "posweights", "doublevote", "stalefork", "stalepack", "shortbest", "votelater"}
+var scenarios = []string{"sync", "async", "async-restart", "byz", "equivocate", "permute", "latesibling", "boundary", "posweights", "posforks", "doublevote", "stalefork", "stalepack", "shortbest", "votelater"}
 
 func runOne(scen string, seed int64, blocks int) ([]trace.Ev, runStat) {
 	rng := rand.New(rand.NewSource(seed))
@@ -985,6 +1091,8 @@ func runOne(scen string, seed int64, blocks int) ([]trace.Ev, runStat) {
 		}
 	case "posweights":
 		c = config{4, 4, true, 3}
+	case "posforks":
+		c = config{4, 3, true, 3} // validator 3 is Byzantine
 	case "doublevote":
 		c = config{4, 2, pos, 4}
 	case "stalefork":
@@ -1018,6 +1126,8 @@ func runOne(scen string, seed int64, blocks int) ([]trace.Ev, runStat) {
 		scenBoundary(r, blocks)
 	case "posweights":
 		scenPosWeights(r, blocks)
+	case "posforks":
+		scenPosForks(r, blocks)
 	case "doublevote":
 		scenDoubleVote(r, blocks)
 	case "stalefork":
